@@ -123,6 +123,8 @@ def search(ctx):
     # eta / radius
     for i in range(ctx.n(300, 5000)):
         cy, cz = rng.uniform(-100, 2100), rng.uniform(-100, 2100)
+        if i % 4 == 1:      # special beam centres: on the first row / column of the detector, integer typed, negative zero, at the origin
+            cy, cz = rng.choice([(0, cz), (cy, 0), (0.0, cz), (cy, -0.0), (0, 0), (rng.randint(-5, 2048), rng.randint(-5, 2048)), (0, rng.randint(1, 2048)), (rng.randint(1, 2048), 0.0)])
         eta = rng.choice([0.0, 90.0, 180.0, 270.0, 360.0, rng.uniform(0, 360)])
         rad = rng.choice([1.0 + 1e-9, rng.uniform(1.0 + 1e-9, 1500)])   # radius >= 1 pixel; the exact boundary is excluded (float rounding of the radius decides the branch there)
         p = detector.eta_and_radpix_to_detyz(eta, rad, cy, cz)
